@@ -82,12 +82,16 @@ def run(ctx):
 
     def g_gen():
         gen["bfs"] = ctx.tlc_gen(S, "GenGCLocker.tla", "GenGCLocker.cfg" if quick else "GenGCLockerBig.cfg", timeout=1500)
-        if not quick:
-            gen["sim"] = ctx.tlc_gen(S, "GenGCLocker.tla", "GenGCLockerSim.cfg", timeout=900, simulate=40, depth=4000)
+
+    def g_gen2():
+        gen["p3"] = ctx.tlc_gen(S, "GenGCLocker.tla", "GenGCLockerP3.cfg", timeout=1500)
+
+    def g_gen3():
+        gen["sim"] = ctx.tlc_gen(S, "GenGCLocker.tla", "GenGCLockerSim.cfg", timeout=900, simulate=40, depth=4000)
 
     def g_build():
         gen["bin"] = ctx.go_build("blockstore", ["blockstore/zz_verif_X01_test.go"])
-    _par(jobs + [g_gen, g_build])
+    _par(jobs + [g_gen, g_build] + ([] if quick else [g_gen2, g_gen3]))
     if ctx.brokens or not gen.get("bfs") or not gen.get("bin"):
         return
     binp = gen["bin"]
@@ -95,16 +99,19 @@ def run(ctx):
     def nontrivial(b):
         return any(s["o"]["gcblocked"] > 0 or "blocked" in s["o"]["pins"].values() or s["op"].endswith("Again")
                    for s in b["steps"])
-    behs = gen["bfs"]
+    # behaviour i runs through wrapper (i + off) % 3: 0 gclocker, 1 NewGCBlockstore, 2 CachedBlockstore
     vias = [ctx.seed % 3] if quick else [0, 1, 2]
-    for off in vias:
-        if ctx.replay_behaviours(binp, "TestVerifX01", "blockstore", behs, env={"VERIF_X01_VIA": off},
-                                 name="sched_via%d" % off, nontrivial=nontrivial, timeout=1500) is None:
-            return
-    if gen.get("sim"):
-        if ctx.replay_behaviours(binp, "TestVerifX01", "blockstore", gen["sim"], env={"VERIF_X01_VIA": ctx.seed % 3},
-                                 name="sched_long", nontrivial=nontrivial, timeout=1500) is None:
-            return
+    for fam in ("bfs", "p3", "sim"):
+        if not gen.get(fam):
+            if not quick:
+                ctx.broken("generator family %s is empty" % fam)
+            continue
+        for off in (vias if fam != "sim" else [ctx.seed % 3]):
+            if ctx.replay_behaviours(binp, "TestVerifX01", "blockstore", gen[fam], env={"VERIF_X01_VIA": off},
+                                     name="sched_%s_via%d" % (fam, off), nontrivial=nontrivial, timeout=2400) is None:
+                return
+            if ctx.violations:
+                break
     ctx.cov["exhaustive"] = True
     if ctx.violations:
         return                                   # a broken locker may dead-lock the free-running recorder
